@@ -902,9 +902,50 @@ fn all_permchange_scenarios() -> Vec<String> {
 }
 
 // ------------------------------------------------------------------ family: arbiter queue (C13 multi-step)
+/// a key in conflict and the notices queued for its arbiter survive a snapshot and a restart (they are ordinary records of the database)
+fn scenario_arbiter_restart(mode: &str, nconf: usize) -> Result<Violations, String> {
+    use nundb::disk_ops::snapshot_all_pendding_dbs;
+    use nundb::storage::disk::{create_db_from_file_name, file_name_from_db_name};
+    let dir = std::env::var("NUN_DBS_DIR").map_err(|_| "NUN_DBS_DIR not set")?;
+    let name = "arbdb".to_string();
+    for suf in [".keys", ".values", ".keys.old", ".values.old"] { let _ = std::fs::remove_file(format!("{}{}", file_name_from_db_name(&name), suf)); }
+    let _ = std::fs::remove_file(format!("{}/{}-nun.madadata", dir, name));
+    let dbs = mk_dbs();
+    let w = World { dbs: dbs.clone() };
+    let (mut c, mut rx) = Client::new_empty_and_receiver();
+    for cmd in ["auth u p", "create-db arbdb tok arbiter", "use-db arbdb tok", "set k v0", "set k v1", "set calm c"] { run_cmd(&w, &mut c, &mut rx, cmd); }
+    let mut v: Violations = vec![];
+    let (mut arb0, mut arx0) = Client::new_empty_and_receiver();
+    for cmd in ["use-db arbdb tok", "arbiter"] { run_cmd(&w, &mut arb0, &mut arx0, cmd); }
+    for i in 0..nconf { run_cmd(&w, &mut c, &mut rx, &format!("set-safe k 0 c{}", i)); }
+    let state = |dbs: &Arc<Databases>| -> Vec<(String, String, i32)> {
+        let m = dbs.map.read().unwrap(); let db = m.get("arbdb").unwrap(); let data = db.map.read().unwrap();
+        let mut out: Vec<(String, String, i32)> = data.iter().filter(|(k, e)| e.state != ValueStatus::Deleted && k.as_str() != "$connections").map(|(k, e)| (k.clone(), e.value.clone(), e.version)).collect();
+        out.sort(); out };
+    let before = state(&dbs);
+    if !before.iter().any(|(k, val, ver)| k == "k" && val == "v1" && *ver == MARK) { return Err("the key did not get into conflict".into()); }
+    let ok = catch_unwind(AssertUnwindSafe(|| {
+        dbs.to_snapshot.write().unwrap().push((name.clone(), mode == "R"));
+        snapshot_all_pendding_dbs(&dbs);
+        let (db, _) = create_db_from_file_name(&format!("{}-nun.data.keys", name), &dbs);
+        dbs.map.write().unwrap().insert(name.clone(), db);
+    }));
+    if ok.is_err() { v.push("C10.safety".into()); return Ok(v); }
+    let after = state(&dbs);
+    for l in ["C13.conflict-survives-restart", "C13.keep-old", "C06.loader-decodes-image", "C06.restore-is-snapshot"] { chk(&mut v, l, after == before); }
+    // an arbiter registering after the restart is sent every unresolved notice
+    let (mut arb, mut arx) = Client::new_empty_and_receiver();
+    run_cmd(&w, &mut arb, &mut arx, "use-db arbdb tok");
+    drain(&mut arx);
+    let (_, notices) = run_cmd(&w, &mut arb, &mut arx, "arbiter");
+    if std::env::var("VERIF_TRACE").is_ok() { eprintln!("state after: {:?}\nnotices: {:?}", after, notices); }
+    for l in ["C13.redeliver", "C13.conflict-survives-restart"] { chk(&mut v, l, notices.iter().filter(|n| n.starts_with("resolve ")).count() == nconf); }
+    Ok(v)
+}
 fn scenario_arbiter(sc: &str) -> Result<Violations, String> {
-    // sc = "<number of conflicting writes 1..3>|<resolution order as digits, e.g. 021>"
+    // sc = "<number of conflicting writes 1..3>|<resolution order as digits, e.g. 021>"   or   "restart|<S|R>|<number of conflicting writes>"
     let p: Vec<&str> = sc.split('|').collect();
+    if p[0] == "restart" { return scenario_arbiter_restart(p[1], p[2].parse().map_err(|_| "bad")?); }
     let nconf: usize = p[0].parse().map_err(|_| "bad")?;
     let order: Vec<usize> = p[1].chars().map(|c| c.to_digit(10).unwrap() as usize).collect();
     let dbs = mk_dbs();
@@ -961,7 +1002,7 @@ fn scenario_arbiter(sc: &str) -> Result<Violations, String> {
     Ok(v)
 }
 fn all_arbiter_scenarios() -> Vec<String> {
-    vec!["1|0", "2|01", "2|10", "3|012", "3|021", "3|102", "3|120", "3|201", "3|210", "1|0|away", "2|01|away", "2|10|away"].into_iter().map(|x| x.to_string()).collect()
+    vec!["1|0", "2|01", "2|10", "3|012", "3|021", "3|102", "3|120", "3|201", "3|210", "1|0|away", "2|01|away", "2|10|away", "restart|S|1", "restart|R|1", "restart|S|2", "restart|R|3"].into_iter().map(|x| x.to_string()).collect()
 }
 
 // ------------------------------------------------------------------ family: watch (subscription windows, sequential)
@@ -1765,7 +1806,7 @@ fn families() -> Vec<(&'static str, fn() -> Vec<String>, fn(&str) -> Result<Viol
 fn family_props(fam: &str) -> &'static [&'static str] {
     match fam {
         "store" => &["C01", "C02", "C03", "C08"], "strategy" => &["C02", "C13", "C19"], "pending" => &["C15"], "ids" => &["C16"], "keymap" => &["C16"],
-        "oplog" => &["C12"], "session" => &["C01", "C08", "C09"], "permchange" => &["C09"], "arbiter" => &["C13"], "watch" => &["C03"], "lines" => &[], "flood" => &[],
+        "oplog" => &["C12"], "session" => &["C01", "C08", "C09"], "permchange" => &["C09"], "arbiter" => &["C06", "C13"], "watch" => &["C03"], "lines" => &[], "flood" => &[],
         "connections" => &["C17"], "snapshot" => &["C01", "C06"], "resync" => &["C05"], "election" => &["C07"], "http" => &["C20"], "httpserver" => &["C08", "C09", "C17", "C20"], "tcpserver" => &["C03", "C17"], "race" => &["C01", "C02"], "oplogdisk" => &["C16"], "wsserver" => &["C03", "C17", "C20"],
         "values" => &["C01", "C03"], "forward" => &["C08", "C09"], "resub" => &["C03"], "logthread" => &["C05", "C12", "C15"], "logroll" => &["C12"],
         _ => &[],
